@@ -23,7 +23,7 @@ RULE = (
 )
 ASSUMPTIONS = [
     "stations are identified through their data (efth = station index + 1), so a wrong station, order or weight is visible in the values",
-    "exact longitudes 0, 180, 360 are not generated (their convention is ambiguous); distances within 1e-9 of the tolerance or of each other are not judged",
+    "exact longitudes 0 and 360 (and -180) are not generated (their convention is ambiguous); exactly 180 is, written as 180 in both conventions; distances within 1e-9 of the tolerance or of each other are not judged",
     "the query convention is [0,360] when all query longitudes are >= 0, else [-180,180] (the library's own detection rule)",
 ]
 
@@ -260,6 +260,8 @@ def lon_near(draw):
         off = draw(st.floats(0.05, 8.0))
         return (off if draw(st.booleans()) else 360.0 - off)
     if kind == "dateline":
+        if draw(st.integers(0, 3)) == 0:
+            return 180.0  # exactly on the date line: a member of both conventions (written 180, never -180)
         off = draw(st.floats(0.05, 8.0))
         return 180.0 + (off if draw(st.booleans()) else -off)
     x = draw(st.floats(0.05, 359.95))
@@ -290,7 +292,7 @@ def sel_case(draw):
             dx = 0.0 if mode == "on-station" else round(draw(st.floats(-3.0, 3.0)), 3)
             dy = 0.0 if mode == "on-station" else round(draw(st.floats(-3.0, 3.0)), 3)
             lam = (L[i] + dx) % 360.0
-            if lam in (0.0, 180.0):
+            if lam == 0.0:
                 lam += 0.125
             ql.append(round(lam, 3))
             qp.append(round(P[i] + dy, 3))
